@@ -36,6 +36,7 @@
 #undef plugin_data
 #include <stdio.h>
 #include <unistd.h>
+#include <sys/mman.h>       /* memfd_create */
 
 #define MAXTOK 512
 #define MAXSLOT 8
@@ -115,6 +116,7 @@ static buffer *sock_tok[MAXSLOT];
 static sock_addr slot_addr[MAXSLOT];
 static buffer slot_addrbuf[MAXSLOT];
 static char cfgpath[64];
+static int cfgfd = -1;
 static const buffer default_tag = { "dflt", 5, 0 };
 
 static void dump_cache(const request_st *r) {
@@ -231,9 +233,8 @@ static void world_free(void) {
 }
 
 static int world_init(const unsigned char *cfg, size_t len) {
-    FILE *f = fopen(cfgpath, "w");
-    if (!f) return 0;
-    fwrite(cfg, 1, len, f); fclose(f);
+    /* the config text lives in an anonymous memory file (no temporary file on disk) */
+    if (0 != ftruncate(cfgfd, 0) || (ssize_t)len != pwrite(cfgfd, cfg, len, 0)) return 0;
     srv = ck_calloc(1, sizeof(*srv));
     srv->tmp_buf = buffer_init();
     srv->errh = log_set_global_errh(NULL, 0);
@@ -377,7 +378,9 @@ static int run_op(char *op) {
 }
 
 int main(void) {
-    snprintf(cfgpath, sizeof(cfgpath), "/tmp/ltv-h_cond.%d.conf", (int)getpid());
+    cfgfd = memfd_create("ltv-h_cond.conf", 0);
+    if (cfgfd < 0) { perror("memfd_create"); return 2; }
+    snprintf(cfgpath, sizeof(cfgpath), "/proc/self/fd/%d", cfgfd);
     ssize_t n;
     while ((n = getline(&line, &cap, stdin)) > 0) {
         while (n > 0 && (line[n-1] == '\n' || line[n-1] == '\r')) line[--n] = 0;
@@ -408,6 +411,5 @@ int main(void) {
         free(obuf);
         world_free();
     }
-    unlink(cfgpath);
     return 0;
 }
